@@ -130,7 +130,7 @@ func Seed() int64 {
 // Deadline returns the internal deadline of this run: budgets end with exhaustive:false, never
 // with an alarm.
 func Deadline() time.Time {
-	d := 100 * time.Second
+	d := 150 * time.Second
 	if Thorough() {
 		d = 25 * time.Minute
 	}
